@@ -815,6 +815,43 @@ def r20_ghost_thread(toks, log, cfg):
         i += 1
     return out
 
+def r26_pin_self(toks, log):
+    """R26: a poll-style method of an `Unpin` type: receiver `mut self: Pin<&mut Self>` -> `&mut self`
+    (for an Unpin type Pin<&mut Self> derefs to &mut Self; pinning itself is not modelled)."""
+    out = []
+    i = 0
+    n = len(toks)
+    pat = ["self", ":", "Pin", "<", "&", "mut", "Self", ">"]
+    while i < n:
+        j = i + 1 if toks[i].text == "mut" else i
+        if j + len(pat) <= n and [t.text for t in toks[j:j + len(pat)]] == pat and i > 0 and toks[i - 1].text == "(":
+            log.add("R26", toks[i], render(toks[i:j + len(pat)]))
+            out += gen("&mut self", toks[i])
+            i = j + len(pat)
+            continue
+        out.append(toks[i]); i += 1
+    return out
+
+def r27_ready(toks, log):
+    """R27: `ready!(E)` -> `(match E { Poll::Ready(t) => t, Poll::Pending => return Poll::Pending })` (the macro's definition)."""
+    out = []
+    i = 0
+    while i < len(toks):
+        if _is_macro(toks, i, {"ready"}) and toks[i + 2].text == "(":
+            c = match_close(toks, i + 2)
+            log.add("R27", toks[i], render(toks[i:c + 1]))
+            inner = [t.clone() for t in toks[i + 3:c]]
+            inner = r27_ready(inner, log)
+            out += gen("(match", toks[i])
+            if inner:
+                inner[0] = inner[0].clone(ws=" ")
+            out += inner
+            out += gen("{ Poll::Ready(verif_ready) => verif_ready, Poll::Pending => return Poll::Pending })", toks[c], " ")
+            i = c + 1
+            continue
+        out.append(toks[i]); i += 1
+    return out
+
 def apply_item_rewrites(toks, log, opts=None):
     opts = opts or {}
     toks = r6_derives_and_attrs(toks, log, opts.get("derives"))
@@ -831,6 +868,8 @@ def apply_item_rewrites(toks, log, opts=None):
     toks = r22_xor_zip(toks, log)
     toks = r25_index_mut_range(toks, log)
     toks = r24_hoist_local_types(toks, log)
+    toks = r26_pin_self(toks, log)
+    toks = r27_ready(toks, log)
     if opts.get("str_ops"):
         toks = r23_str_ops(toks, log, opts["str_ops"])
         toks = r23b_str_literals(toks, log)
